@@ -114,6 +114,26 @@ def contributions_obligation(dims, cls="BaseEdge", cfg=None):
     return lambda pkg: run_obligation(pkg, fn)
 
 
+def own_chi2_obligation(dims):
+    """The chi^2 an edge contributes to the assembled system is the edge's own calc_chi2(): for a user-defined edge class that
+    overrides calc_chi2 the value reported by optimize() (taken from the assembly) and Graph.calc_chi2() (the sum of the edges'
+    calc_chi2) must be the same number."""
+    def fn(it):
+        edge, err, W, Js, gs = generic_edge(it, dims)
+        own = Poly.var("chi2_own")
+        edge.stubs["calc_chi2"] = lambda: own
+        res = it.call_method(edge, "calc_chi2_gradient_hessian", [])
+        if isinstance(res, Obj) and getattr(res, "tuple_fields", None):
+            res = it.iterate(res, None)
+        if not isinstance(res, (tuple, list)) or len(res) != 3:
+            raise ObFail("calc_chi2_gradient_hessian does not return (chi2, gradient list, hessian list)")
+        if not isinstance(res[0], Poly) or res[0] != own:
+            raise ObFail("the chi^2 contribution of an edge whose class overrides calc_chi2 is not that edge's calc_chi2(): the report of "
+                         "optimize() (assembled chi^2) and Graph.calc_chi2() disagree for such edges")
+        return dict(dims=list(dims))
+    return lambda pkg: run_obligation(pkg, fn)
+
+
 ARITIES_QUICK = [(2,), (3,), (2, 3), (3, 3), (3, 2), (2, 3, 3)]
 ARITIES_THOROUGH = ARITIES_QUICK + [(6,), (6, 3), (6, 6), (2, 2, 2), (3, 6, 2)]
 
@@ -182,6 +202,13 @@ def run(run_, pkg, tier):
         key = "C03-bc/assembly/%s" % scn.name
         if run_.wants(key):
             tasks.append((key, "C03-bc-assembly", assembly_obligation(scn), "%s:%d" % (fn._gs_module, fn.lineno)))
+    from ..assembly import edited_edges_obligation
+    for scn in SCENARIOS:
+        if scn.name in ("fix-first", "parallel-only"):
+            for edit in ("reweight", "append"):
+                key = "C03-bc/assembly-sequence/%s/then-%s" % (scn.name, edit)
+                if run_.wants(key):
+                    tasks.append((key, "C03-bc-assembly-history-independent", edited_edges_obligation(scn, edit), "%s:%d" % (fn._gs_module, fn.lineno)))
     from ..assembly import real_edges_obligation
     for kind, fx, ffp in (("SE2", (), True), ("SE2", (1,), False), ("R2", (), False)):
         key = "C03-bc/assembly/real-edges-%s/%s" % (kind, "fix-first" if ffp else "fixed=%s" % list(fx))
